@@ -9,6 +9,7 @@ from spverif.ref import cfdp as R
 from . import _cfdp as C
 
 SCRIBBLE = True
+THOROUGH_SCALE = 16
 ID = "C18"
 LEVEL = "exploration"
 SHARDS = {"quick": 1, "thorough": 8}
